@@ -1,12 +1,108 @@
 import GridVerif.Model.Proto
 import GridVerif.Model.Elem
+import GridVerif.Model.Poisson
+import GridVerif.Gen.Poisson
 
 namespace GridVerif.Driver.C16
-open GridVerif.Proto
+open GridVerif.Proto GridVerif.Poisson GridVerif.Gen.Poisson
+
+def pBool : String → Option Bool
+  | "0" => some false
+  | "1" => some true
+  | _ => none
+
+def sBool (b : Bool) : String := if b then "1" else "0"
+
+def sBc (bc : List (Nat × Nat × Float)) : String :=
+  String.intercalate " " (toString bc.length :: bc.map fun t => s!"{t.1} {t.2.1} {sFloat t.2.2}")
 
 /-- Line-protocol handler of property C16: `C16.<op> args…` ↦ one answer line
 (`none` = malformed, answered `bad-op`). -/
 def handle : List String → Option String
+  | ["C16.y00"] => some ("ok " ++ sFloat (y00 : Float))
+  | ["C16.consts"] =>
+    some (String.intercalate " " ["ok", sFloat (bvpTol : Float), toString bvpMaxNodes, sBool bvpNoDerivatives,
+      sFloat (bvpRemoveLargeDefault : Float), sBool bvpIncludeOriginDefault, ivpMethod, sFloat (ivpRtol : Float),
+      sFloat (ivpAtol : Float), sFloat (ivpIntervalDefault : Float × Float).1, sFloat (ivpIntervalDefault : Float × Float).2,
+      sBool robustSplit2Default])
+  | ["C16.bvp", l, r, rho] => do
+    let l ← pNat l
+    let r ← pFloat r
+    let rho ← pFloat rho
+    pure ("ok " ++ sFloats (bvpCoeffs l r) ++ " " ++ sFloat (bvpRhs rho r))
+  | ["C16.ivp", l, r, rho] => do
+    let l ← pNat l
+    let r ← pFloat r
+    let rho ← pFloat rho
+    pure ("ok " ++ sFloats (ivpCoeffs l r) ++ " " ++ sFloat (ivpRhs rho r))
+  | ["C16.boundary", q, y] => do
+    let q ← pFloat q
+    let y ← pFloat y
+    pure ("ok " ++ sFloat (bvpBoundary q y) ++ " " ++ sFloat (ivpBoundary q y))
+  | ["C16.bvpseq", lmax, b] => do
+    let lmax ← pNat lmax
+    let b ← pFloat b
+    let ps := bvpProblems lmax b
+    pure (String.intercalate " " ("ok" :: toString ps.length :: ps.map fun p => s!"{p.1} {p.2.1} {sBc p.2.2}"))
+  | ["C16.ivpseq", lmax, b, rmax] => do
+    let lmax ← pNat lmax
+    let b ← pFloat b
+    let rmax ← pFloat rmax
+    let ps := ivpProblems lmax b rmax
+    pure (String.intercalate " " ("ok" :: toString ps.length :: ps.map fun p => s!"{p.1} {p.2.1} {sFloats p.2.2}"))
+  | ["C16.interval", r0, r1] => do
+    let r0 ← pFloat r0
+    let r1 ← pFloat r1
+    if ivpRejects r0 r1 then pure "value-error" else pure ("ok " ++ sFloat (ivpRMax r0 r1))
+  | "C16.radpts" :: inc :: rl :: t :: rest => do
+    let inc ← pBool inc
+    let rl ← pBool rl
+    let t ← pFloat t
+    let (pts, tl) ← pVec pFloat rest
+    if tl ≠ [] then none else
+    pure ("ok " ++ sFloats (radPoints pts inc (if rl then some t else none)))
+  | ["C16.value", u, r] => do
+    let u ← pFloat u
+    let r ← pFloat r
+    pure ("ok " ++ sFloat (bvpValue u r) ++ " " ++ sFloat (ivpValue u r))
+  | "C16.pot" :: r :: rest => do
+    let r ← pFloat r
+    let (us, t1) ← pVec pFloat rest
+    let (ys, t2) ← pVec pFloat t1
+    if t2 ≠ [] ∨ us.length ≠ ys.length then none else
+    pure ("ok " ++ sFloat (bvpPotentialAt us r ys) ++ " " ++ sFloat (ivpPotentialAt us r ys))
+  | "C16.slices" :: rest => do
+    let (f, t1) ← pVec pFloat rest
+    let (w, t2) ← pVec pFloat t1
+    let (idx, t3) ← pVec pNat t2
+    if t3 ≠ [] ∨ f.length ≠ w.length then none else
+    match atomSlices f w idx with
+    | some ss => pure (String.intercalate " " ("ok" :: toString ss.length :: ss.map sFloats))
+    | none => pure "index-error"
+  | "C16.molsum" :: rest => do
+    let (vs, t1) ← pVec pFloat rest
+    if t1 ≠ [] then none else
+    match molSum vs with
+    | some v => pure ("ok " ++ sFloat v)
+    | none => pure "index-error"
+  | "C16.core" :: rsq :: rest => do
+    let rsq ← pFloat rsq
+    let (cs, t1) ← pVec pFloat rest
+    let (as, t2) ← pVec pFloat t1
+    if t2 ≠ [] then none else
+    if cs.length ≠ as.length then pure "value-error" else
+    pure ("ok " ++ sFloat (coreDensity cs as rsq))
+  | "C16.residual" :: rho :: rest => do
+    let rho ← pFloat rho
+    let (cores, t1) ← pVec pFloat rest
+    if t1 ≠ [] then none else
+    pure ("ok " ++ sFloat (robustResidualAll rho cores))
+  | "C16.total" :: vb :: vr :: rest => do
+    let vb ← pFloat vb
+    let vr ← pFloat vr
+    let (pots, t1) ← pVec pFloat rest
+    if t1 ≠ [] then none else
+    pure ("ok " ++ sFloat (robustPotential pots vb vr))
   | _ => none
 
 end GridVerif.Driver.C16
